@@ -243,6 +243,32 @@ void prop_union(const Case& cs) {
   cpc_sketch r = check_result(u, "final");
   // lossless compression of the union result
   check_roundtrip(r, seed, items, r.get_num_coupons(), "union result");
+  // the union's state is a value: a union of ANOTHER lg_k (empty or already fed) that is overwritten by copy assignment, and a third
+  // one by move assignment, gives the same result as the source and keeps doing so when both receive one more sketch
+  {
+    const uint64_t sel = vf::mix64(static_cast<uint64_t>(cs.get("perm", 1)) + 991);
+    const uint8_t other_lgk = static_cast<uint8_t>(4 + (static_cast<unsigned>(u_lgk) - 4 + 1 + sel % 11) % 13);
+    cpc_union v(other_lgk, seed), w(static_cast<uint8_t>(4 + (other_lgk - 4 + 5) % 13), seed);
+    if (sel & 16) { cpc_sketch t(other_lgk, seed); for (uint32_t i = 0; i < 40 + sel % 3000; ++i) vf::feed(t, vf::Item{vf::T_I64, static_cast<uint64_t>(700000) + i}); v.update(t); }
+    v = u;
+    cpc_sketch rv = v.get_result();
+    auto b0 = r.serialize(), b1 = rv.serialize();
+    VF_CHECK(rv.get_lg_k() == r.get_lg_k() && rv.get_num_coupons() == r.get_num_coupons() && b0.size() == b1.size() && std::memcmp(b0.data(), b1.data(), b0.size()) == 0, "union-copy-assign",
+             "union(lg_k " << int(other_lgk) << ") = union(lg_k " << u_lgk << "): result lg_k/coupons " << int(rv.get_lg_k()) << "/" << rv.get_num_coupons() << " vs source " << int(r.get_lg_k()) << "/" << r.get_num_coupons());
+    w = std::move(v);
+    cpc_sketch rw = w.get_result();
+    auto b2 = rw.serialize();
+    VF_CHECK(rw.get_lg_k() == r.get_lg_k() && rw.get_num_coupons() == r.get_num_coupons() && b0.size() == b2.size() && std::memcmp(b0.data(), b2.data(), b0.size()) == 0, "union-move-assign",
+             "move-assigned union: result lg_k/coupons " << int(rw.get_lg_k()) << "/" << rw.get_num_coupons() << " vs source " << int(r.get_lg_k()) << "/" << r.get_num_coupons());
+    // one more sketch into the original and into the assigned union
+    cpc_sketch extra(static_cast<uint8_t>(4 + sel % 13), seed);
+    for (uint32_t i = 0; i < 20 + (sel >> 8) % 2000; ++i) vf::feed(extra, vf::Item{vf::T_I64, static_cast<uint64_t>(800000) + i});
+    cpc_union u_copy(u);
+    u_copy.update(extra); w.update(extra);
+    cpc_sketch e1 = u_copy.get_result(), e2 = w.get_result();
+    VF_CHECK(e1.get_lg_k() == e2.get_lg_k() && e1.get_num_coupons() == e2.get_num_coupons(), "union-assign-continue", "after one more input: copy-constructed union gives lg_k/coupons " << int(e1.get_lg_k()) << "/" << e1.get_num_coupons() << ", assigned union " << int(e2.get_lg_k()) << "/" << e2.get_num_coupons());
+    vf::label("union-assigned");
+  }
   // the result is a sketch like any other: continuing the stream on it - directly and on its restored image - keeps the exact
   // coupon set (nothing offered later is dropped, nothing is invented)
   {
